@@ -34,7 +34,7 @@ WIDE_NAMES = ([HEAD, _h("m")] + [_h("x" * (L - 11)) for L in WIDE_LENGTHS]
               + [_h("q" * 125 + s) for s in ("a", "b")])               # 137 bytes, 136 shared
 WIDE_VALUES = (["mk%02d" % i for i in range(18)] + ["mklead001c", "mkzeros1c", "lead1c", "tail0000", "zeros01", "ff"]
                + ["p%04d" % i for i in range(4)])
-BULK_SIZES = (1, 15, 16, 17, 100, 1000)
+BULK_SIZES = (1, 15, 16, 17, 100, 300)
 
 
 def bulk_names(n):
